@@ -90,6 +90,7 @@ type evGenOpts struct {
 	LateRows  float64 // probability that a row is generated later than the tolerance
 	MaxRows   int
 	Adversary bool // adversarial key strings
+	Burst     bool // some cases: hundreds of in-order rows while the trigger goroutine is held up by a blocked output buffer
 }
 
 // genEvCase builds an event-time window case: spec, rows (one producer), flush row, perf, sink.
@@ -176,6 +177,13 @@ func genEvCase(rng *simrt.Rand, tier string, o evGenOpts) *Case {
 	sp.KeyCols = []string{"k1", "k2"}[:ncols]
 	tuples := genKeyTuples(rng, ncols, o.Adversary && rng.Bool(0.5))
 	n := 4 + rng.Intn(o.MaxRows-3)
+	// burst: the watermark advances with (nearly) every row while the trigger goroutine sits in a
+	// blocked hand-off to a slow sink (block strategy, output buffer of 1), so the watermark
+	// channel (capacity 100 in the engine) overflows and advances have to be re-sent later
+	burst := o.Burst && rng.Bool(0.08)
+	if burst {
+		n = 130 + rng.Intn(220)
+	}
 	// nominal timeline in units; base aligned near a window boundary of the fake epoch
 	epochU := fakeEpochMS * int64(time.Millisecond) / u
 	base := epochU - epochU%sizeU + int64(rng.Intn(3))*sizeU + []int64{0, 0, 1, sizeU / 2, sizeU - 1}[rng.Intn(5)]
@@ -186,6 +194,10 @@ func genEvCase(rng *simrt.Rand, tier string, o evGenOpts) *Case {
 	var ops []Op
 	var maxTS int64 = math.MinInt64
 	sleepP := []float64{0, 0.1, 0.4}[rng.Intn(3)]
+	if burst {
+		gaps = []int64{1, maxI64(1, step/4), maxI64(1, step/2), maxI64(1, step/2)}
+		sleepP = 0
+	}
 	sleeps := []time.Duration{50 * time.Microsecond, 5 * time.Millisecond, 250 * time.Millisecond}
 	if sp.Idle > 0 {
 		sleeps = append(sleeps, time.Duration(sp.Idle)+time.Duration(sp.Idle)/2)
@@ -294,6 +306,11 @@ func genEvCase(rng *simrt.Rand, tier string, o evGenOpts) *Case {
 		sink.Fault, sink.Every = "slow", 1+rng.Intn(3)
 		sink.D = int64([]time.Duration{100 * time.Microsecond, 5 * time.Millisecond, 300 * time.Millisecond}[rng.Intn(3)])
 	}
+	if burst {
+		perf.Strategy, perf.BlockTimeout, perf.DataChan, perf.WindowOut = "block", int64(time.Hour), 1+rng.Intn(4), 1
+		sink.Fault, sink.Every, sink.D = "slow", 1, int64([]time.Duration{50 * time.Millisecond, 300 * time.Millisecond}[rng.Intn(2)])
+		c.X["burst"] = true
+	}
 	sp.store(c)
 	c.Insts = []InstSpec{{SQL: sp.sql(), Perf: perf, Sinks: []SinkSpec{sink}}}
 	adv := []time.Duration{time.Microsecond, time.Millisecond, 100 * time.Millisecond, 200 * time.Millisecond, time.Second}
@@ -304,6 +321,9 @@ func genEvCase(rng *simrt.Rand, tier string, o evGenOpts) *Case {
 	c.Settle = int64(3 * time.Second)
 	c.Horizon = int64(6 * time.Hour)
 	c.MaxSteps = 400000
+	if burst {
+		c.MaxSteps = 3000000
+	}
 	c.Variant = sp.Kind
 	return c
 }
@@ -781,6 +801,9 @@ func checkTimeWindows(e *Env, sp *evSpec, l *evLedger, prop string) {
 		"rows": len(l.Rows), "results": len(res), "intervals": len(ivs), "garbage_rows": nGarbage}
 	if len(ivs) >= 3 {
 		e.Probe("three_or_more_windows")
+	}
+	if e.C.xBool("burst") {
+		e.Probe("burst_behind_blocked_output")
 	}
 }
 
